@@ -153,6 +153,8 @@ func c03(c *Ctx) {
 			c.Fail(f.Witness, f.What)
 		}
 	}
+	// the concrete model: L4 parse → toL5 → L5 run, tied to interp.Runner; C03's statement as a spec op
+	c03ModelStreams(c, c.N*4)
 }
 
 func clip(s string) string {
